@@ -1154,6 +1154,7 @@ func (t *tree) newFunctionNode(tok item) ast.Node {
 
 // next returns the next token.
 func (t *tree) next() item {
+	verifStep()
 	if t.peekCount > 0 {
 		t.peekCount--
 	} else {
